@@ -317,11 +317,31 @@ func TestCoversExhaustive(t *testing.T) {
 
 // ---- parse ----
 
-type ParseCase struct{ S string }
+// Prime: before Parse(S) is judged, the same spelling is built through New / Join from its segments (these do
+// not validate, so the result may be a Command that Parse would refuse). Acceptance by Parse is a function of
+// the string alone; whatever the package remembers about commands it has seen must not change it.
+type ParseCase struct {
+	S     string
+	Prime int `json:",omitempty"` // 0 no, 1 New(segs...), 2 Top().Join(segs...), 3 New(first).Join(rest...)
+}
 
 var parseRunes = []rune{'/', '/', '/', 'a', 'b', 'z', 'A', 'Z', 'é', 'É', 'ß', 'ж', 'Ж', '1', '-', '_', ' ', '.', 'ほ', 'Σ', 'σ', 'ς', 'Ⅰ', 'ⅰ', 'Ⓐ', 'ⓐ', 'ǅ', '𝐀', 'ſ', 'µ'}
 
 func runParse(c *h.Ctx, pc ParseCase) {
+	if pc.Prime > 0 && strings.HasPrefix(pc.S, "/") && len(pc.S) > 1 {
+		segs := strings.Split(pc.S[1:], "/")
+		h.Try(func() {
+			switch pc.Prime {
+			case 1:
+				_ = command.New(segs...).String()
+			case 2:
+				_ = command.Top().Join(segs...).String()
+			default:
+				_ = command.New(segs[0]).Join(segs[1:]...).String()
+			}
+		})
+		c.P.Class("parse/primed")
+	}
 	want, specified := refValid(pc.S)
 	if !specified {
 		c.P.Unspecified()
@@ -357,7 +377,7 @@ func runParse(c *h.Ctx, pc ParseCase) {
 
 var parse = h.Define(P, "parse", func(t *rapid.T) ParseCase {
 	if rapid.IntRange(0, 9).Draw(t, "mode") == 0 {
-		return ParseCase{rapid.String().Draw(t, "s")}
+		return ParseCase{S: rapid.String().Draw(t, "s")}
 	}
 	n := rapid.IntRange(0, 10).Draw(t, "n")
 	rs := make([]rune, n)
@@ -368,7 +388,11 @@ var parse = h.Define(P, "parse", func(t *rapid.T) ParseCase {
 	if rapid.IntRange(0, 2).Draw(t, "lead") > 0 {
 		s = "/" + s
 	}
-	return ParseCase{s}
+	pc := ParseCase{S: s}
+	if rapid.IntRange(0, 2).Draw(t, "prime") == 0 {
+		pc.Prime = rapid.IntRange(1, 3).Draw(t, "primekind")
+	}
+	return pc
 }, runParse)
 
 func TestParse(t *testing.T) { parse.Check(t) }
